@@ -904,11 +904,21 @@ class DataFrameInternal:
     def applyFunctionOnHashPartitionedRdds(self, other, func):
         self_prepared_rdd, other_prepared_rdd = self.hash_partition_and_sort(other)
 
-        def filter_partition(partition_id, self_partition):
-            other_partition = other_prepared_rdd.partitions()[partition_id].x()
+        # Each task gets its partition of both sides as data: a dataset that
+        # a task reaches through its closure has no partitions in a worker
+        partition_pairs = self._sc.parallelize(
+            zip(
+                self_prepared_rdd.glom().toLocalIterator(),
+                other_prepared_rdd.glom().toLocalIterator()
+            ),
+            self_prepared_rdd.getNumPartitions()
+        )
+
+        def filter_partition(partition_pair):
+            self_partition, other_partition = partition_pair
             return func(iter(self_partition), iter(other_partition))
 
-        filtered_rdd = self_prepared_rdd.mapPartitionsWithIndex(filter_partition)
+        filtered_rdd = partition_pairs.flatMap(filter_partition)
         return self._with_rdd(filtered_rdd, self.bound_schema)
 
     def hash_partition_and_sort(self, other):
